@@ -14,12 +14,18 @@
    which type words are accepted.  FloatingPoint: the model parser keeps the exact decimal value and
    C10_float_end_to_end bounds what an mpf of at least the declared precision keeps of it.
    C10_decrat_correct / C10_inline_ers_correct: the character-level decimal -> rational-string
-   conversion (utils.c, and the function of inline-poly-parser.c it is built on), as coded now. *)
+   conversion (utils.c, and the function of inline-poly-parser.c it is built on), as coded now.
+   The C integer conversions (atoi for Degree= / Precision=, sscanf %d for sparse indices and the 2.x
+   degree, %ld for the 2.x precision word, the double product with LOG2_10 and its conversion to long)
+   are modelled as glibc / x86-64 perform them (CIntModel.v); [wf] carries the bounds under which the
+   round trip holds (degree + 1 <= INT_MAX, Precision <= INT_MAX resp. < 2^51 for the 2.x word), the
+   section "C integer conversions" below says what happens beyond them (C10_*_refuted). *)
 Require Import String Ascii List ZArith NArith QArith Bool Lia.
 Require Import MPSV.PolFile.Chars MPSV.PolFile.DecRatModel MPSV.PolFile.PolModel MPSV.PolFile.PolProofs.
 Require Import MPSV.PolFile.RoundTripText MPSV.PolFile.RoundTripLines MPSV.PolFile.RoundTripOptions MPSV.PolFile.RoundTripSettings MPSV.PolFile.RoundTrip.
 Require Import MPSV.PolFile.DecRat MPSV.PolFile.FloatPrec.
 Require Import MPSV.PolFile.V2Model MPSV.PolFile.RoundTripLegacy MPSV.PolFile.StoreModel MPSV.PolFile.StoreProofs.
+Require Import MPSV.PolFile.CIntProofs MPSV.PolFile.CIntParse.
 Import ListNotations.
 Local Open Scope char_scope.
 
@@ -250,7 +256,7 @@ Theorem C10_float_end_to_end : forall (st : style) (pi : list nat) (d : polydesc
 Proof. exact float_end_to_end. Qed.
 Print Assumptions C10_float_end_to_end.
 
-Theorem C10_declared_bits : forall d : polydesc,
+Theorem C10_declared_bits : forall d : polydesc, wf d ->
   declared_bits (denote d) = match d_prec d with Some P => Z.to_pos (prec_bits (Zpos P)) | None => 64%positive end.
 Proof. exact declared_bits_denote. Qed.
 Print Assumptions C10_declared_bits.
@@ -273,7 +279,8 @@ Print Assumptions C10_rendered_lines_partial.
    on the rendered option section, in any order, case and spacing, reaches the settings of d and
    hands the rest of the lines to the coefficient reader *)
 Theorem C10_options_phase_partial : forall (st : style) (pi : list nat) (d : polydesc) (REST : list text),
-  (1 <= d_degree d)%nat -> Forall (fun l => has_char ";" l = false) REST ->
+  (1 <= d_degree d)%nat -> degree_in_range (Z.of_nat (d_degree d)) -> d_legacy d = false -> prec_bounded d ->
+  Forall (fun l => has_char ";" l = false) REST ->
   options_phase (zip_default stripped default_optdeco (permute pi (options_of st d)) (st_opts st) ++ REST) initial_settings
   = Some (target_settings d, REST).
 Proof. exact options_phase_of_render. Qed.
@@ -468,3 +475,106 @@ Example C10_example_inline_ers :
   /\ build_ers (kw "-1.5/2") = None /\ build_ers (kw "1e2/3") = None
   /\ build_ers (kw " 1.5/2") = Some (kw "15/2/1000", 0%Z, false, true).
 Proof. vm_compute. repeat split; reflexivity. Qed.
+
+(* ------------------------------------------------------------------ C integer conversions *)
+
+(* the well-formedness bounds inside [wf] (PolModel.v), spelled out *)
+Theorem C10_wf_bounds : forall d : polydesc, wf d ->
+  (Z.of_nat (d_degree d) + 1 <= 2147483647)%Z
+  /\ match d_prec d with
+     | Some P => if d_legacy d then (Zpos P < 2 ^ 51)%Z else (Zpos P <= 2147483647)%Z
+     | None => True end.
+Proof. intros d (_ & _ & _ & _ & _ & A & B). split; [exact A|]. destruct (d_prec d); [destruct (d_legacy d)|]; exact B. Qed.
+Print Assumptions C10_wf_bounds.
+
+(* atoi (Degree=, Precision=) and sscanf %d (sparse indices, 2.x degree) read a digit string of ANY
+   length exactly IF AND ONLY IF its value is at most INT_MAX: the bound in [wf] is the exact one *)
+Theorem C10_atoi_exact_iff : forall v : text, all_digits v -> v <> [] ->
+  (atoi v = Z.of_N (digits_val v) <-> (Z.of_N (digits_val v) <= INT_MAX)%Z).
+Proof. exact atoi_exact_iff. Qed.
+Print Assumptions C10_atoi_exact_iff.
+
+Theorem C10_scan_int_exact_iff : forall v : text, all_digits v -> v <> [] ->
+  (scan_int v = Some (Z.of_N (digits_val v)) <-> (Z.of_N (digits_val v) <= INT_MAX)%Z).
+Proof. exact scan_int_exact_iff. Qed.
+Print Assumptions C10_scan_int_exact_iff.
+
+(* sscanf %ld (2.x precision word) saturates *)
+Theorem C10_scan_long_saturates : forall v : text, all_digits v -> v <> [] ->
+  scan_long v = Some (Z.min (Z.of_N (digits_val v)) LONG_MAX).
+Proof. exact scan_long_saturates. Qed.
+Print Assumptions C10_scan_long_saturates.
+
+(* beyond the bound atoi does not fail: it returns an int congruent to the value modulo 2^32 (values up
+   to LONG_MAX), and -1 for every longer number *)
+Theorem C10_atoi_silent_wrap : forall v : text, all_digits v -> v <> [] ->
+  let n := Z.of_N (digits_val v) in
+  (INT_MIN <= atoi v <= INT_MAX)%Z
+  /\ ((n <= LONG_MAX)%Z -> exists k, atoi v = (n - k * 4294967296)%Z)
+  /\ ((LONG_MAX <= n)%Z -> atoi v = (-1)%Z).
+Proof. exact atoi_silent_wrap. Qed.
+Print Assumptions C10_atoi_silent_wrap.
+
+(* Precision = P digits -> bits: the double computation  (long) (P * LOG2_10)  gives the product with
+   the double constant LOG2_10 = 7480317065143153 / 2^51 truncated, or one more (rounding of the double
+   product), for every P below 2^51 ... *)
+Theorem C10_prec_bits_bracket : forall P : Z, (0 <= P < 2 ^ 51)%Z ->
+  (prec_bits_exact P <= prec_bits P <= prec_bits_exact P + 1)%Z.
+Proof. exact prec_bits_bracket. Qed.
+Print Assumptions C10_prec_bits_bracket.
+
+(* ... and exactly the truncated product for every P below 65536 (finite domain, by computation) *)
+Theorem C10_prec_bits_exact_below_65536 : forall P : Z, (0 <= P < 65536)%Z -> prec_bits P = prec_bits_exact P.
+Proof. exact prec_bits_is_exact. Qed.
+Print Assumptions C10_prec_bits_exact_below_65536.
+
+Example C10_example_prec_bits :
+  prec_bits 16 = 53%Z /\ prec_bits 1000 = 3321%Z /\ prec_bits 2147483647 = 7133786260%Z /\ prec_bits (-3) = (-9)%Z
+  /\ prec_bits 3000000000000000000 = LONG_MIN /\ prec_bits 2776000000000000000 = 9221672391407316992%Z
+  /\ atoi (kw " +12x") = 12%Z /\ atoi (kw "4294967298") = 2%Z /\ atoi (kw "2147483648") = (-2147483648)%Z
+  /\ atoi (kw "99999999999999999999") = (-1)%Z /\ atoi (kw "-99999999999999999999") = 0%Z
+  /\ scan_int (kw "-") = None /\ scan_long (kw "9223372036854775808") = Some LONG_MAX.
+Proof. vm_compute. repeat split; reflexivity. Qed.
+
+(* REFUTED beyond the bounds: "the parsed object has exactly the written degree / precision / indices".
+   A Degree value above INT_MAX whose low 32 bits are a positive int is accepted as that other degree,
+   whatever the settings ... *)
+Theorem C10_degree_beyond_int_wraps : forall (st : settings) (v : text), all_digits v -> v <> [] ->
+  (INT_MAX < Z.of_N (digits_val v))%Z -> (0 < int_of_digits false v)%Z ->
+  exists st', apply_option st (K_DEGREE, v) = Some st' /\ s_n st' = int_of_digits false v
+              /\ s_n st' <> Z.of_N (digits_val v).
+Proof. exact degree_option_wraps. Qed.
+Print Assumptions C10_degree_beyond_int_wraps.
+
+(* ... and on whole files, at each of the seven conversion sites (the files are replayed on the real
+   parsers by the check: they reproduce, see known/C10.json and fixes/C10_integer_range.patch):
+   3.x Degree=4294967298 read as degree 2; Precision=4294967306 read as 10 digits (33 bits);
+   sparse index 4294967296 stored as coefficient 0 (monomial), 4294967297 as coefficient 1 (Chebyshev);
+   2.x degree word 4294967298 read as 2; 2.x sparse index 4294967296 stored as coefficient 0;
+   2.x precision word 3000000000000000000: the product leaves the range of long (undefined in C),
+   the polynomial is returned with prec = LONG_MIN *)
+Theorem C10_integer_range_refuted :
+  exists t1 t2 t3 t4 t5 t6 t7 : text,
+    pdeg (parse t1) = Some 2%Z /\ parse_option_line (kw "Degree=4294967298;") = Some (K_DEGREE, kw "4294967298")
+    /\ pprec (parse t2) = Some 33%Z
+    /\ pcoef (parse t3) 0 = Some ((7, 1), (0, 1))%Z
+    /\ pcoef (parse t4) 1 = Some ((7, 1), (0, 1))%Z
+    /\ pdeg (parse t5) = Some 2%Z
+    /\ pcoef (parse t6) 0 = Some ((7, 1), (0, 1))%Z
+    /\ pprec (parse t7) = Some LONG_MIN
+    /\ [t1; t2; t3; t4; t5; t6; t7] = [wit_degree_3x; wit_precision_3x; wit_index_3x; wit_index_cheb; wit_degree_2x; wit_index_2x; wit_precision_2x].
+Proof.
+  exists wit_degree_3x, wit_precision_3x, wit_index_3x, wit_index_cheb, wit_degree_2x, wit_index_2x, wit_precision_2x.
+  pose proof witnesses_parse as (A & B & (_ & C) & (_ & D) & E & (_ & F) & G).
+  repeat split; try assumption; vm_compute; reflexivity.
+Qed.
+Print Assumptions C10_integer_range_refuted.
+
+(* the repair (range-checked conversion: strtol, ERANGE, explicit bounds) changes nothing inside the
+   bounds: where it accepts, it returns what atoi returns, and that is the written value *)
+Theorem C10_checked_conversion_agrees : forall (lo hi : Z) (ds : text), (INT_MIN <= lo)%Z -> (hi <= INT_MAX)%Z ->
+  match checked_digits lo hi false ds with
+  | Some z => int_of_digits false ds = z /\ z = Z.of_N (digits_val ds)
+  | None => True end.
+Proof. exact checked_digits_agrees. Qed.
+Print Assumptions C10_checked_conversion_agrees.
